@@ -40,14 +40,18 @@ const (
 
 // String returns the string representation of this hashing algorithm.
 func (h HashingAlgorithm) String() string {
-	return [...]string{
+	names := [...]string{
 		"UNKNOWN",
 		"SHA2_256",
 		"SHA2_384",
 		"SHA3_256",
 		"SHA3_384",
 		"KMAC128",
-		"Keccak_256"}[h]
+		"Keccak_256"}
+	if h < 0 || int(h) >= len(names) {
+		return names[UnknownHashingAlgorithm]
+	}
+	return names[h]
 }
 
 const (
